@@ -18,9 +18,85 @@ def main():
     shim.sleep = lambda s: _time.sleep(0.002)       # the 1 s poll of main(), shortened
     shim.time = _time.time
     C.time = shim
+    import gc
+    import hashlib
+    import logging
+    import wave
+    import auditok.workers as W
+    import auditok.plotting as P
     out = []
+    real_os = W.os
+    real_plot = P.plot
     for job in jobs:
         res = {"id": job["id"], "exit": None, "raised": None, "stdout": "", "stderr": ""}
+        fx = {"commands": [], "played": [], "plots": []}
+        if job.get("fx"):
+            # side-effect options: os.system as seen by auditok.workers is recorded (the temporary wav is read and removed), a fake pyaudio
+            # device collects what is played, plot() is recorded instead of drawn
+            class OsShim:
+                def __getattr__(self_, name):
+                    return getattr(os, name)
+
+                def system(self_, cmd):
+                    f = cmd.split(" ", 1)[1] if " " in cmd else ""
+                    rec = {"cmd": cmd.split(" ")[0], "exists": os.path.exists(f), "sha": None, "par": None}
+                    try:
+                        with wave.open(f) as wf:
+                            rec["sha"] = hashlib.sha1(wf.readframes(-1)).hexdigest()
+                            rec["par"] = [wf.getframerate(), wf.getsampwidth(), wf.getnchannels()]
+                    except Exception:  # noqa
+                        pass
+                    try:
+                        os.remove(f)
+                    except OSError:
+                        pass
+                    fx["commands"].append(rec)
+                    return 0
+            W.os = OsShim()
+            mod = types.ModuleType("pyaudio")
+
+            class FakeStream:
+                def __init__(s_, kw):
+                    s_.kw = kw
+
+                def write(s_, chunk):
+                    fx["played"].append(bytes(chunk).hex())
+
+                def is_stopped(s_):
+                    return False
+
+                def is_active(s_):
+                    return True
+
+                def start_stream(s_):
+                    pass
+
+                def stop_stream(s_):
+                    pass
+
+                def close(s_):
+                    pass
+
+            class PyAudio:
+                def get_format_from_width(s_, w):
+                    return {1: 16, 2: 8, 4: 2}.get(w, 0)
+
+                def open(s_, **kw):
+                    fx["player_params"] = [kw.get("rate"), kw.get("channels"), kw.get("format")]
+                    return FakeStream(kw)
+
+                def terminate(s_):
+                    pass
+            mod.PyAudio = PyAudio
+            mod.paInt16, mod.paInt8, mod.paInt32 = 8, 16, 2
+            sys.modules["pyaudio"] = mod
+
+            def fake_plot(record, detections=None, energy_threshold=None, show=None, save_as=None, **kw):
+                b = bytes(record)
+                fx["plots"].append({"sha": hashlib.sha1(b).hexdigest(), "n": len(b), "par": [record.sr, record.sw, record.ch],
+                                    "dets": [[float(a_), float(b_)] for a_, b_ in (detections or [])], "eth": energy_threshold,
+                                    "save_as": os.path.basename(save_as) if save_as else None, "show": bool(show)})
+            P.plot = fake_plot
         so, se = io.StringIO(), io.StringIO()
         old_stdin = sys.stdin
         old_argv = sys.argv
@@ -54,7 +130,20 @@ def main():
             sys.argv = old_argv
             os.chdir(cwd)
         res["stdout"] = so.getvalue()
-        res["stderr"] = se.getvalue()[-500:]
+        res["stderr"] = se.getvalue()[-500:] if not job.get("fx") else se.getvalue()[-200000:]
+        res["fx"] = fx
+        W.os = real_os
+        P.plot = real_plot
+        sys.modules.pop("pyaudio", None)
+        # one process runs many command lines: the named logger of cmdline_util must not carry handlers from one to the next
+        lg = logging.getLogger("AUDITOK_LOGGER")
+        for h_ in list(lg.handlers):
+            lg.removeHandler(h_)
+            try:
+                h_.close()
+            except Exception:  # noqa
+                pass
+        gc.collect()
         # wait for stray threads (a failed run may leave workers behind)
         import threading
         for _ in range(200):
